@@ -4,7 +4,10 @@ CONSTANTS
   MaxD = 2
   MaxT = 1
   Variant = "ref_no_courant"
+  Volumes <- VolumesQ
 INVARIANT TypeOK
 INVARIANT AllEqual
 INVARIANT ScaleIsOne
+INVARIANT EdgesAgree
+INVARIANT PlacementAgrees
 CHECK_DEADLOCK FALSE
